@@ -11,7 +11,16 @@ THEOREMS = [
      "text": "get_next_tasks returns [] and leaves the state unchanged in succeeded/canceled"},
     {"name": "C04_failed_offers_only_cleanup", "strength": "F",
      "text": "in failed nothing is offered unless a staged entry carries run_on_fail"},
-    {"name": "(tested, not proved) late reports absorbed; rejected requests leave the state unchanged",
+    {"name": "C04b_rejected_status_request_is_inert(_lifecycle)", "strength": "F",
+     "text": "for every evaluator, requested status and initialised state whose workflow status has a row in the "
+             "generated table: a status request that raises leaves the whole conductor state unchanged"},
+    {"name": "C04b_lifecycle_invariant / C04b_fresh_status_in_lifecycle", "strength": "F",
+     "text": "that proviso is an invariant of every history of API calls from a fresh conductor"},
+    {"name": "C04b_rejected_request_not_inert_outside_lifecycle", "strength": "R",
+     "text": "witness that the proviso cannot be dropped (a status no history reaches)"},
+    {"name": "C04b_request_frame / C04b_status_request_exceptions", "strength": "F",
+     "text": "a status request touches only statuses/log/errors; the only exceptions it raises"},
+    {"name": "(tested, not proved) late reports are absorbed without error",
      "strength": "T", "text": "monitor c04 on every generated history"},
 ]
 TRUSTED_BASE = common.TRUSTED_BASE_COMMON + [
